@@ -15,7 +15,8 @@
              `shallow` (new object, same first-level values), `deep` (new object, values copied);
     back   — where the back-reference of the copied wrapper points: `detach` (a plain container
              is returned), `memoOrOwner` (`memo.get(id(owner), owner)`: the new owner when the
-             owner is being copied, else the ORIGINAL owner), `memoOrCopyOwner` (pickle: the owner
+             owner is being copied, else the ORIGINAL owner), `memoOrDetach` (the new owner when the
+             owner is being copied, else a plain container: the repaired code), `memoOrCopyOwner` (pickle: the owner
              travels with the wrapper), `owner` (the original owner, always);
     ownerMutated — the operation re-assigns the owner's field while copying
              (`copy.copy(x.arr)`: copyreg re-appends the items through the overridden `append`).
@@ -44,7 +45,7 @@ inductive CMode
   deriving DecidableEq, Repr, Inhabited
 
 inductive BackRef
-  | detach | memoOrOwner | memoOrCopyOwner | owner
+  | detach | memoOrOwner | memoOrDetach | memoOrCopyOwner | owner
   deriving DecidableEq, Repr, Inhabited
 
 /-- one row of the generated table -/
@@ -74,6 +75,7 @@ def projOf (tbl : List CopyRow) (op : CopyOp) (k : CKind) : KindRow :=
 /-- Python-level kind of a cell, by its tag -/
 def kindOfTag (t : String) : CKind :=
   if t == "Structure" then .structure
+  else if t == "ScratchStructure" then .structure      -- the bare `Structure()` that owns wrappers nested in a collection
   else if t == "ImmutableStructure" then .immStructure
   else if t == "_ListStruct" then .listStruct
   else if t == "_DictStruct" then .dictStruct
@@ -120,6 +122,15 @@ def dcWrapper (rec : Heap → Item → R Item) (strict : Bool) (B : BackRef) (me
         match memoFind memo o with
         | some n => allocLike h1 (h.cells w).tag (its ++ [(backKey, .ref n)])
         | none => if strict then (h1, none) else allocLike h1 (h.cells w).tag (its ++ [(backKey, .ref o)])
+      | .memoOrDetach =>
+        match memoFind memo o with
+        | some n => allocLike h1 (h.cells w).tag (its ++ [(backKey, .ref n)])
+        | none =>
+          -- "copied on its own" is said of a wrapper that is the live field value of a real instance; a wrapper
+          -- nested in a collection (owner: a scratch `Structure()`) stays bound to that scratch owner
+          if (h.cells o).tag == "ScratchStructure" then
+            (if strict then (h1, none) else allocLike h1 (h.cells w).tag (its ++ [(backKey, .ref o)]))
+          else allocLike h1 (plainTag (h.cells w).tag) its
       | .memoOrCopyOwner =>
         match memoFind memo o with
         | some n => allocLike h1 (h.cells w).tag (its ++ [(backKey, .ref n)])
@@ -127,41 +138,49 @@ def dcWrapper (rec : Heap → Item → R Item) (strict : Bool) (B : BackRef) (me
           match rec h1 (.ref o) with
           | (h2, none) => (h2, none)
           | (h2, some io) => allocLike h2 (h.cells w).tag (its ++ [(backKey, io)])
-    | _ => allocLike h1 (h.cells w).tag its
+    -- a back-reference that is not a heap object (the `_NestedOwner` stand-in of a nested wrapper is dumped
+    -- as an atom): kept as it is
+    | some (.atom v) => allocLike h1 (h.cells w).tag (its ++ [(backKey, .atom v)])
+    | none => allocLike h1 (h.cells w).tag its
 
 /-- one `__dict__` entry of the structure `self` being copied into `new`: a wrapper is copied with
-    the memo `{self ↦ new}`, anything else by `rec` -/
-def dcAttr (rec : Heap → Item → R Item) (strict : Bool) (T : CKind → KindRow) (self new : Nat)
+    the memo `{self ↦ new}`, anything else by `recV` (the walk "inside an owner that is being copied") -/
+def dcAttr (recV : Heap → Item → R Item) (strict : Bool) (T : CKind → KindRow) (self new : Nat)
     (h : Heap) : Item → R Item
   | .atom v => (h, some (.atom v))
   | .ref v =>
     if (kindOfTag (h.cells v).tag).isWrapper then
-      dcWrapper rec strict (T (kindOfTag (h.cells v).tag)).back [(self, new)] h v
-    else rec h (.ref v)
+      dcWrapper recV strict (T (kindOfTag (h.cells v).tag)).back [(self, new)] h v
+    else recV h (.ref v)
 
 /-- one object: `Structure.__deepcopy__` (`cls.__new__`, memo, every `__dict__` entry re-set),
-    a wrapper met on its own (empty memo), a plain container (rebuilt element by element) -/
-def dcNode (rec : Heap → Item → R Item) (strict : Bool) (T : CKind → KindRow) (h : Heap) (a : Nat) : R Item :=
+    a wrapper met on its own (empty memo), a plain container (rebuilt element by element).
+    `via` = the object is met inside a value that its owner re-assigns through `setattr(result, k, …)`:
+    the field's `__set__` rebuilds a typed wrapper nested in the value and binds it to a FRESH scratch
+    owner (so does the pickle memo) — modelled as: the scratch owner is copied along. -/
+def dcNode (rec recV : Heap → Item → R Item) (strict : Bool) (T : CKind → KindRow) (via : Bool)
+    (h : Heap) (a : Nat) : R Item :=
   if (kindOfTag (h.cells a).tag).isStruct then
     match (T (kindOfTag (h.cells a).tag)).mode with
     | .self_ => if strict then (h, none) else (h, some (.ref a))
     | .shallow => if strict then (h, none) else allocLike h (h.cells a).tag (h.cells a).items
     | .deep =>
-      match mapItems (dcAttr rec strict T a h.next) (h.alloc ⟨(h.cells a).tag, []⟩).1 (h.cells a).items with
+      match mapItems (dcAttr recV strict T a h.next) (h.alloc ⟨(h.cells a).tag, []⟩).1 (h.cells a).items with
       | (h2, none) => (h2, none)
       | (h2, some its) => (h2.write h.next ⟨(h.cells a).tag, its⟩, some (.ref h.next))
   else if (kindOfTag (h.cells a).tag).isWrapper then
-    dcWrapper rec strict (T (kindOfTag (h.cells a).tag)).back [] h a
+    if via then dcWrapper recV strict .memoOrCopyOwner [] h a
+    else dcWrapper rec strict (T (kindOfTag (h.cells a).tag)).back [] h a
   else
     match mapItems rec h (h.cells a).items with
     | (h1, none) => (h1, none)
     | (h1, some its) => allocLike h1 (h.cells a).tag its
 
 /-- `copy.deepcopy(obj)` / `pickle.loads(pickle.dumps(obj))` under the table projection `T` -/
-def dcItem (strict : Bool) (T : CKind → KindRow) : Nat → Heap → Item → R Item
-  | _, h, .atom v => (h, some (.atom v))
-  | 0, h, .ref _ => (h, none)
-  | n + 1, h, .ref a => dcNode (dcItem strict T n) strict T h a
+def dcItem (strict : Bool) (T : CKind → KindRow) : Nat → Bool → Heap → Item → R Item
+  | _, _, h, .atom v => (h, some (.atom v))
+  | 0, _, h, .ref _ => (h, none)
+  | n + 1, via, h, .ref a => dcNode (dcItem strict T n via) (dcItem strict T n true) strict T via h a
 
 /-- replace the value stored under `name` (first match) -/
 def setItemC (name : String) (v : Item) : List (String × Item) → List (String × Item)
@@ -202,7 +221,7 @@ def copyTop (T : CKind → KindRow) (h : Heap) (a : Nat) : R Item :=
 def copyOp (tbl : List CopyRow) (op : CopyOp) (strict : Bool) (fuel : Nat) (h : Heap) (a : Nat) : R Item :=
   match op with
   | .copy => copyTop (projOf tbl .copy) h a
-  | .deepcopy => dcItem strict (projOf tbl .deepcopy) fuel h (.ref a)
-  | .pickle => dcItem strict (projOf tbl .pickle) fuel h (.ref a)
+  | .deepcopy => dcItem strict (projOf tbl .deepcopy) fuel false h (.ref a)
+  | .pickle => dcItem strict (projOf tbl .pickle) fuel false h (.ref a)
 
 end Typedpy.AliasC11
